@@ -241,7 +241,20 @@ class Ctx:
         return os.path.join(TARGET, "release" if release else "debug", name)
 
     def ocaml_build(self):
+        # every model module named in extraction/parts must be compiled and up to date (a regenerated
+        # Gen file invalidates cones other than this property's)
+        mods = []
+        pdir = os.path.join(COQ, "extraction", "parts")
+        for fn in sorted(os.listdir(pdir)):
+            for l in open(os.path.join(pdir, fn)):
+                if l.startswith("Require:"):
+                    mods += l[len("Require:"):].split()
+        vos = ["theories/" + m.replace(".", "/") + ".vo" for m in mods]
         with BuildLock():
+            gen_coqproject()
+            if not os.path.exists(os.path.join(COQ, "Makefile")):
+                sh("coq_makefile -f _CoqProject -o Makefile", cwd=COQ)
+            rc0, out0, _ = sh(["make", "-j16", "-k"] + vos, cwd=COQ, timeout=1500)
             rc, out, dt = sh([os.path.join(COQ, "extraction", "build.sh"), OCAML], timeout=900)
         self.log(f"extraction + ocaml driver -> rc={rc} in {dt:.1f}s")
         if rc != 0:
